@@ -119,9 +119,3 @@ Theorem C17_table_pressure_density_decrease :
 Proof. exact atm_P_rho_decreasing. Qed.
 Print Assumptions C17_table_pressure_density_decrease.
 
-(* translator tie: the unit contract (declared units of every input and output of every class), regenerated from /repo on
-   every run, is the reviewed one; a dropped or changed `units=` breaks this obligation *)
-From OAS Require Import IOUnits IOUnitsReviewed IOUnitsProofs.
-Theorem C17_unit_contract_is_the_reviewed_one : gen_io_units = reviewed_io_units.
-Proof. exact io_units_reviewed. Qed.
-Print Assumptions C17_unit_contract_is_the_reviewed_one.
